@@ -36,6 +36,9 @@ type GroupSpec struct {
 type Config struct {
 	Groups    []GroupSpec `json:"groups"`
 	GlobalDry bool        `json:"globalDry"`
+	// Linger: groups keep listing an instance as Terminating after its termination was accepted,
+	// until the environment lets them settle (gcNodes / reconcile / a clock step of minutes)
+	Linger bool `json:"linger,omitempty"`
 }
 
 // IsDry reports whether group g runs in dry mode.
@@ -89,6 +92,7 @@ func init() {
 func New(cfg Config) *World {
 	j := sim.NewJournal()
 	w := &World{Cfg: cfg, J: j, K: sim.NewK8s(j), V: sim.NewView(j), A: sim.NewAWS(j), LockT0: map[int]time.Time{}}
+	w.A.Linger = cfg.Linger
 	for g := range cfg.Groups {
 		gs := &cfg.Groups[g]
 		w.A.AddASG(gs.Opts.CloudProviderGroupName, gs.ASGMin, gs.ASGMax, int64(gs.InitNodes), fmt.Sprintf("subnet-g%da,subnet-g%db", g, g))
@@ -256,7 +260,8 @@ func (w *World) NewNodeFor(g int, inst *sim.Instance, created time.Time) *v1.Nod
 		Spec: v1.NodeSpec{ProviderID: inst.ProviderID()},
 		Status: v1.NodeStatus{
 			Allocatable: v1.ResourceList{v1.ResourceCPU: qty(gs.NodeCPU), v1.ResourceMemory: qtyB(gs.NodeMem), v1.ResourcePods: *resource.NewQuantity(110, resource.DecimalSI)},
-			Capacity:    v1.ResourceList{v1.ResourceCPU: qty(gs.NodeCPU + 80), v1.ResourceMemory: qtyB(gs.NodeMem + 1<<20), v1.ResourcePods: *resource.NewQuantity(110, resource.DecimalSI)},
+			// like a real kubelet: capacity is the machine, allocatable is what is left after reservations
+			Capacity: v1.ResourceList{v1.ResourceCPU: qty(gs.NodeCPU + gs.NodeCPU/16 + 80), v1.ResourceMemory: qtyB(gs.NodeMem + gs.NodeMem/10 + 1<<20), v1.ResourcePods: *resource.NewQuantity(110, resource.DecimalSI)},
 		},
 	}
 	return n
@@ -282,6 +287,11 @@ type PodSpec struct {
 	Finished bool   `json:"finished,omitempty"`
 	// BoundPending: bound to Node but still in phase Pending (scheduled, containers not started yet)
 	BoundPending bool `json:"boundPending,omitempty"`
+	// Terminating: seconds until the pod's deletion deadline (negative: the deadline has passed);
+	// a gracefully deleted pod stays listed, bound and in its phase until kubelet and finalizers are done
+	Terminating int64 `json:"terminating,omitempty"`
+	// Tolerate: "all" = blanket toleration (operator Exists), "escalator" = tolerates the escalator taint key
+	Tolerate string `json:"tolerate,omitempty"`
 	// EmptyAffinity: `affinity: {}` on a pod that names no group (an empty object, no rule inside)
 	EmptyAffinity bool `json:"emptyAffinity,omitempty"`
 	// Age: the pod was created this many seconds ago (it may predate the node it is bound to:
@@ -352,6 +362,18 @@ func (w *World) NewPod(s PodSpec) *v1.Pod {
 					{Key: o.LabelKey, Operator: v1.NodeSelectorOpIn, Values: []string{o.LabelValue}}}}}}}}
 		}
 	}
+	if s.Terminating != 0 {
+		ts := metav1.NewTime(time.Now().Add(time.Duration(s.Terminating) * time.Second).Truncate(time.Second))
+		grace := int64(30)
+		p.DeletionTimestamp, p.DeletionGracePeriodSeconds = &ts, &grace
+	}
+	switch s.Tolerate {
+	case "all":
+		p.Spec.Tolerations = []v1.Toleration{{Operator: v1.TolerationOpExists}}
+	case "escalator":
+		p.Spec.Tolerations = []v1.Toleration{{Key: ref.TaintKey, Operator: v1.TolerationOpExists, Effect: v1.TaintEffectNoSchedule},
+			{Key: "node.kubernetes.io/not-ready", Operator: v1.TolerationOpExists, Effect: v1.TaintEffectNoExecute}}
+	}
 	if s.EmptyAffinity && p.Spec.Affinity == nil {
 		p.Spec.Affinity = &v1.Affinity{}
 	}
@@ -384,8 +406,12 @@ func (w *World) NewPod(s PodSpec) *v1.Pod {
 	} else {
 		p.OwnerReferences = []metav1.OwnerReference{{Kind: "Job", Name: "job", APIVersion: "batch/v1"}}
 	}
-	if s.Static {
+	if s.Static { // a mirror pod as the kubelet creates it: source / mirror / hash annotations, owned by its Node
 		p.Annotations[ref.StaticSource] = "file"
+		p.Annotations["kubernetes.io/config.mirror"] = "0123456789abcdef"
+		p.Annotations["kubernetes.io/config.hash"] = "0123456789abcdef"
+		ctrl := true
+		p.OwnerReferences = []metav1.OwnerReference{{APIVersion: "v1", Kind: "Node", Name: s.Node, UID: "node-uid", Controller: &ctrl}}
 	}
 	// the name sequence follows the group the pod is attributed to (not the group it was drawn
 	// for), so that adding pods to one group never renames another group's pods
@@ -492,6 +518,10 @@ func (a Action) String() string {
 		add("node=%s val=%q remove=%v", a.Node, a.Val, a.Flag)
 	case "asgEdit":
 		add("g=%d min=%d max=%d", a.Group, a.N, a.M)
+	case "gracefulDelete":
+		add("pods=%v deadline=%+ds", a.Names, a.N)
+	case "resizePod":
+		add("pod=%v cpu=%dm mem=%dMB", a.Names, a.N, a.M)
 	case "bulk":
 		add("g=%d %s count=%d from=%d back=%v val=%q", a.Group, a.Key, a.N, a.M, a.D, a.Val)
 	case "condition":
@@ -501,7 +531,7 @@ func (a Action) String() string {
 	case "latency":
 		add("%v", a.D)
 	case "fault":
-		add("%+v", a.Faults)
+		add("%+v concurrentWriter=%q", a.Faults, a.Val)
 	case "fleetPlan":
 		add("%+v", *a.Fleet)
 	default:
@@ -566,6 +596,9 @@ func (w *World) Apply(a Action) (rec *ScanRecord, ok bool) {
 		if a.D > 0 && a.D < 1000*24*time.Hour {
 			time.Sleep(a.D)
 		}
+		if a.D >= 5*time.Minute { // terminations a group still lists are over by now
+			w.A.Settle()
+		}
 	case "launch": // ASG instances come up and register as nodes, created Ages[i] seconds ago
 		g := w.ASG(a.Group)
 		for i := 0; i < a.N; i++ {
@@ -582,6 +615,7 @@ func (w *World) Apply(a Action) (rec *ScanRecord, ok bool) {
 			g.Desired += int64(a.N)
 		}
 	case "reconcile": // ASG launches instances up to desired; no Node objects yet
+		w.A.Settle()
 		g := w.ASG(a.Group)
 		for int64(len(g.Instances)) < g.Desired {
 			w.A.NewInstance(g.Name)
@@ -598,7 +632,36 @@ func (w *World) Apply(a Action) (rec *ScanRecord, ok bool) {
 				w.K.PutNode(w.NewNodeFor(a.Group, inst, time.Now()))
 			}
 		}
+	case "settle": // the groups finish the terminations they still list
+		w.A.Settle()
+	case "asgDeleting": // somebody force-deletes the ASG: status set, sizes zeroed, the group is still listed
+		if g := w.ASG(a.Group); g != nil {
+			g.Status = "Delete in progress"
+			g.Min, g.Max, g.Desired = 0, 0, 0
+		}
+	case "gracefulDelete": // pods are deleted through the API and stay listed until their deadline (N seconds from now) and beyond
+		for _, p := range w.Pods {
+			for _, name := range a.Names {
+				if p.Name == name && p.DeletionTimestamp == nil {
+					ts := metav1.NewTime(time.Now().Add(time.Duration(a.N) * time.Second).Truncate(time.Second))
+					p.DeletionTimestamp = &ts
+				}
+			}
+		}
+	case "resizePod": // in-place resize: same pod (name, UID), other requests
+		for _, p := range w.Pods {
+			if len(a.Names) > 0 && p.Name == a.Names[0] && len(p.Spec.Containers) > 0 {
+				p.Spec.Containers[0].Resources.Requests = v1.ResourceList{v1.ResourceCPU: qty(int64(a.N)), v1.ResourceMemory: qtyB(int64(a.M) * 1_000_000)}
+			}
+		}
+	case "heartbeat": // the kubelet's status update: the stored object moves on (resourceVersion), the content that matters does not
+		if n := w.K.Nodes[a.Node]; n != nil {
+			w.K.Touch(a.Node)
+		} else {
+			ok = false
+		}
 	case "gcNodes": // cloud controller removes Node objects whose instance is gone
+		w.A.Settle()
 		for _, name := range w.K.SortedNames() {
 			n := w.K.Nodes[name]
 			id := instanceIDOf(n.Spec.ProviderID)
@@ -872,6 +935,32 @@ func (w *World) Apply(a Action) (rec *ScanRecord, ok bool) {
 	case "fault":
 		w.J.Arm(a.Faults)
 		w.FailBuild = a.N
+		// a refused update is a conflict: somebody else wrote the node first. a.Val says what they wrote.
+		w.K.OnConflict = nil
+		if writer := a.Val; writer != "" {
+			w.K.OnConflict = func(stored *v1.Node) {
+				switch writer {
+				case "cordon":
+					stored.Spec.Unschedulable = true
+				case "annotate":
+					if stored.Annotations == nil {
+						stored.Annotations = map[string]string{}
+					}
+					stored.Annotations[ref.NoDeleteKey] = "added-by-owner"
+				case "foreignTaint":
+					stored.Spec.Taints = append(stored.Spec.Taints, v1.Taint{Key: "node.kubernetes.io/unreachable", Effect: v1.TaintEffectNoExecute})
+				case "otherReplica":
+					if _, ok := ref.HasTaint(stored, ref.TaintKey); !ok {
+						stored.Spec.Taints = append(stored.Spec.Taints, v1.Taint{Key: ref.TaintKey, Value: fmt.Sprint(time.Now().Add(-10 * time.Minute).Unix()), Effect: v1.TaintEffectNoSchedule})
+					}
+				case "label":
+					if stored.Labels == nil {
+						stored.Labels = map[string]string{}
+					}
+					stored.Labels["touched-by"] = "someone"
+				}
+			}
+		}
 	case "fleetPlan":
 		w.A.Fleet = *a.Fleet
 	case "oddNode":
